@@ -291,3 +291,72 @@ class SedRead(Contract):
                                      c.forall([T.shape[0], n], (lambda G, T, q: lambda i, k: G[i, k] * q.unit.scale / a.unit_flux.scale ==
                                                                 from_ref(to_ref(T[i, src(k)], f['ua'], nu[src(k)], d_m), a.unit_flux, nu[src(k)], d_m))(G, T, q), 'cells')]
         return out
+
+
+# ---------------------------------------------------------------------------------------------
+# SED.write: the stored tables describe the same wavelength row by row (C12)
+# ---------------------------------------------------------------------------------------------
+
+@contract
+class SedWrite(Contract):
+    """SED.write(filename): ONE re-ordering (by increasing frequency) is applied to wavelengths, frequencies and --
+    per aperture -- fluxes and errors, so that row k of the spectral table and column k of the flux table describe
+    the same wavelength; frequencies are stored in non-decreasing order; name, distance (cm), apertures and the
+    unit of every column are stored; the SED itself is not modified.
+    (astropy Table.sort(key) re-orders every column by np.argsort(column key): assumed dependency contract.)"""
+    name = SED + '.write'
+    properties = ('C12', 'C07')
+    variants = ('apertures', 'single')
+    modifies = ()
+
+    def setup(self, c, variant):
+        sed = make_sed(c, n_ap=1 if variant == 'single' else None)
+        W = c.A(c.attr(sed, '_wav')).n
+        c.set_attr(sed, '_nu', Quantity(c.array('sed_nu', (W,)), U['Hz']))
+        return dict(self=sed, filename='out_sed.fits', overwrite=False)
+
+    def ensures(self, c, a, result, old):
+        from sedvc.extmodels import is_table
+        from sedvc.values import ListRef, DictRef
+        ev = [e for e in c.st.events if e[0] == 'fits.writeto']
+        out = {'written_once_to_the_named_file': len(ev) == 1 and ev[0][1] == 'out_sed.fits' and len(ev[0][2]) == 4}
+        if not out['written_once_to_the_named_file']:
+            return out
+        hdus = ev[0][2]
+
+        def cols(h):
+            d = c.attr(h, 'data')
+            return c.st.heap[d.addr].attrs['@cols'] if is_table(c.st, d) else {}
+
+        def units_(h):
+            return [c.attr(x, 'unit') for x in c.st.heap[c.attr(h, 'columns').addr].items]
+        hdr0 = c.st.heap[c.attr(hdus[0], 'header').addr].items
+        dist = c.attr(a.self, 'distance')
+        out['name_and_distance_in_cm'] = [hdr0.get('MODEL') is c.attr(a.self, 'name'), compare('==', hdr0.get('DISTANCE') * U['cm'].scale, dist.value * dist.unit.scale)]
+        wq, nq, fq, eq = (c.attr(a.self, k) for k in ('_wav', '_nu', '_flux', '_error'))
+        WAV, NU, FL, ER = c.A(wq), c.A(nq), c.A(fq), c.A(eq)
+        n = WAV.n
+        c1, c3 = cols(hdus[1]), cols(hdus[3])
+        ok = set(c1) == {'WAVELENGTH', 'FREQUENCY'} and set(c3) == {'TOTAL_FLUX', 'TOTAL_FLUX_ERR'}
+        out['tables_have_the_documented_columns'] = ok
+        if not ok:
+            return out
+        SW, SN, SF, SE = c.A(c1['WAVELENGTH']), c.A(c1['FREQUENCY']), c.A(c3['TOTAL_FLUX']), c.A(c3['TOTAL_FLUX_ERR'])
+        O = c.A(c.witness('order', (n,), 'int'))
+        out['one_reordering_for_all_tables'] = [c.forall(n, lambda k: band(O[k] >= 0, O[k] < n), 'order in range'),
+                                                compare('==', SW.n, n), compare('==', SN.n, n), compare('==', SF.shape[1], n), compare('==', SE.shape[1], n),
+                                                c.forall(n, lambda k: band(SW[k] == WAV[O[k]], SN[k] == NU[O[k]]), 'spectral table'),
+                                                c.forall([FL.shape[0], n], lambda i, k: band(SF[i, k] == FL[i, O[k]], SE[i, k] == ER[i, O[k]]), 'flux table')]
+        out['every_wavelength_stored_once'] = c.forall([n, n], lambda k, l: implies(bnot(k == l), bnot(O[k] == O[l])), 'injective')
+        out['stored_by_increasing_frequency'] = c.forall([n, n], lambda k, l: implies(k <= l, SN[k] <= SN[l]), 'sorted')
+        u1, u3 = units_(hdus[1]), units_(hdus[3])
+        out['units_recorded'] = (len(u1) == 2 and len(u3) == 2 and all(isinstance(x, Opaque) and x.tag == 'unitstr' for x in u1 + u3)
+                                 and u1[0].info is wq.unit and u1[1].info is nq.unit and u3[0].info is fq.unit and u3[1].info is eq.unit)
+        c2 = cols(hdus[2])
+        ap = c.attr(a.self, '_apertures')
+        if ap is None:
+            out['placeholder_aperture'] = 'APERTURE' in c2
+        else:
+            SA, AP = c.A(c2.get('APERTURE')), c.A(ap)
+            out['apertures_stored'] = [compare('==', SA.n, AP.n), c.forall(AP.n, lambda i: SA[i] == AP[i], 'apertures')]
+        return out
